@@ -20,7 +20,7 @@ import specclient
 from parts import roundtrip as R
 from parts import unparse_tie as ut
 
-SPEC = dict(gen=['defs', 'rules', 'tables', 'actions', 'lexdata', 'unicodecat'], props=['CalmVerif.Props.C02'],
+SPEC = dict(gen=['defs', 'rules', 'tables', 'actions', 'lexdata', 'unicodecat'], props=['CalmVerif.Props.C02', 'CalmVerif.Props.C01typed2'],
             drivers=['drv_unparse', 'drv_spec', 'drv_parse', 'drv_rt'], audit='Audit/C02.lean')
 
 
